@@ -59,6 +59,30 @@ impl Class {
     self.fields.len()
   }
 
+  /// Iterate over the methods of this class
+  #[cfg(feature = "verif")]
+  pub fn verif_methods(&self) -> Vec<(String, Value)> {
+    let mut methods: Vec<(String, Value)> = self
+      .methods
+      .iter()
+      .map(|(name, value)| (name.to_string(), *value))
+      .collect();
+    methods.sort_by(|a, b| a.0.cmp(&b.0));
+    methods
+  }
+
+  /// Iterate over the fields of this class
+  #[cfg(feature = "verif")]
+  pub fn verif_fields(&self) -> Vec<(String, u16)> {
+    let mut fields: Vec<(String, u16)> = self
+      .fields
+      .iter()
+      .map(|(name, index)| (name.to_string(), *index))
+      .collect();
+    fields.sort_by(|a, b| a.1.cmp(&b.1));
+    fields
+  }
+
   #[inline]
   pub fn init(&self) -> Option<Value> {
     self.init
